@@ -434,6 +434,26 @@ M("c05-benign-switch-order", "C05", "json_object.c",
   "\tcase json_type_object: json_object_object_delete(jso); break;\n\tcase json_type_array: json_object_array_delete(jso); break;",
   "\tcase json_type_array: json_object_array_delete(jso); break;\n\tcase json_type_object: json_object_object_delete(jso); break;", expect="silent")
 
+# ---- C09 -------------------------------------------------------------------------------------
+M("c09-mixed-sign-unguarded", "C09", "json_object.c",
+  "\t\t\tif (int1->cint.c_int64 < 0)\n\t\t\t\treturn 0;\n\t\t\treturn ((uint64_t)int1->cint.c_int64 == int2->cint.c_uint64);",
+  "\t\t\treturn ((uint64_t)int1->cint.c_int64 == int2->cint.c_uint64);", needle="C09.R3")
+M("c09-type-check-dropped", "C09", "json_object.c",
+  "\tif (jso1->o_type != jso2->o_type)\n\t\treturn 0;\n\n\tswitch (jso1->o_type)", "\tswitch (jso1->o_type)", needle="C09.R1")
+M("c09-one-direction", "C09", "json_object.c",
+  "\t/* Iterate over jso2 keys to see if any exist that are not in jso1 */\n\tjson_object_object_foreachC(jso2, iter)\n\t{\n\t\tif (!lh_table_lookup_ex(JC_OBJECT(jso1)->c_object, (void *)iter.key,\n\t\t                        (void **)(void *)&sub))\n\t\t\treturn 0;\n\t}\n",
+  "", needle="C09.R4")
+M("c09-copy-shares-child", "C09", "json_object.c",
+  "\t\t\tif (json_object_array_add(*dst, jso) < 0)\n\t\t\t{\n\t\t\t\tjson_object_put(jso);\n\t\t\t\treturn -1;\n\t\t\t}",
+  "\t\t\tif (jso1 && json_object_get_type(jso1) == json_type_null)\n\t\t\t{\n\t\t\t\tjson_object_put(jso);\n\t\t\t\tjso = json_object_get(jso1);\n\t\t\t}\n\t\t\tif (json_object_array_add(*dst, jso) < 0)\n\t\t\t{\n\t\t\t\tjson_object_put(jso);\n\t\t\t\treturn -1;\n\t\t\t}",
+  needle="C09.R5")
+M("c09-copy-uint-as-int", "C09", "json_object.c",
+  "\t\t\t*dst = json_object_new_uint64(JC_INT(src)->cint.c_uint64);", "\t\t\t*dst = json_object_new_int64(JC_INT(src)->cint.c_int64);", needle="C09.R6")
+M("c09-userdata-shared", "C09", "json_object.c",
+  "\t\tp = strdup(src->_userdata);\n\t\tif (p == NULL)", "\t\tp = src->_userdata;\n\t\tif (p == NULL)", needle="C09.R5")
+M("c09-benign-early-null", "C09", "json_object.c",
+  "\tif (!jso1 || !jso2)\n\t\treturn 0;\n\n\tif (jso1->o_type != jso2->o_type)", "\tif (jso1 == NULL)\n\t\treturn 0;\n\tif (jso2 == NULL)\n\t\treturn 0;\n\n\tif (jso1->o_type != jso2->o_type)", expect="silent")
+
 
 def sh(cmd, **kw):
     return subprocess.run(cmd, shell=isinstance(cmd, str), stdout=subprocess.PIPE, stderr=subprocess.STDOUT, text=True, **kw)
